@@ -197,7 +197,15 @@ func (r *Run) Spawn(t []string) string {
 	}
 	site, done, _ := r.sc.Site(tid)
 	if done {
-		site = "done"
+		// the call returned without reaching a yield point (not possible in the code the model was
+		// transcribed from): record the return so that the history stays complete
+		th := r.threads[tid]
+		ret := "panic"
+		if th.fin {
+			ret = th.res
+			r.hist = append(r.hist, fmt.Sprintf("r%d:%s", tid, th.res))
+		}
+		return fmt.Sprintf("t%d@done ret=%s", tid, ret)
 	}
 	return fmt.Sprintf("t%d@%s", tid, site)
 }
@@ -459,9 +467,9 @@ func gen(rng *proto.RNG, tier string, shard, nshards int, w *bufio.Writer) {
 		}
 		caseNo++
 	}
-	bound, limit := 2, 150
+	bound, limit := 2, 250
 	if tier == "thorough" {
-		bound, limit = 3, 600
+		bound, limit = 3, 300
 	}
 	// (ii) systematic: pre-emption bounded DFS over the scenario family (scenarios sharded)
 	for i, sc := range scenarios(tier) {
@@ -475,7 +483,7 @@ func gen(rng *proto.RNG, tier string, shard, nshards int, w *bufio.Writer) {
 	// (iii) random: threads arrive late, 1-3 addresses, shared and private reference objects,
 	// uniformly random choice among the live threads; at most 5 threads live at a time and 12
 	// operations per case (the judge searches linearisations)
-	nRandom := 40
+	nRandom := 150
 	if tier == "thorough" {
 		nRandom = 500
 	}
